@@ -720,10 +720,11 @@ impl Exec {
             }
         }
         self.world.settle();
-        let mut locals: BTreeMap<SocketAddr, usize> = BTreeMap::new();
+        let mut locals: BTreeMap<(usize, SocketAddr), usize> = BTreeMap::new();
         for (i, p) in probes.iter_mut().enumerate() {
             let got = p.slot.borrow().done.clone();
-            if let Some(st) = p.slot.borrow_mut().stream.take() {
+            let taken = p.slot.borrow_mut().stream.take();
+            if let Some(st) = taken {
                 p.stream = Some(Scoped::new(self.world.id(p.host), st));
                 p.local = p.slot.borrow().local;
             }
@@ -746,7 +747,7 @@ impl Exec {
             }
             self.out.count(&format!("tcp_probe_{}", fmt_res(&got)), 1);
             if let (Some(s), Some(l)) = (p.stream.as_ref(), p.local) {
-                if locals.insert(l, i).is_some() {
+                if locals.insert((p.host, l), i).is_some() {
                     return Err(cp("ephemeral-port-in-use", format!("{desc}: local address {l} handed to two live connections")));
                 }
                 let _ = s.on().try_write(&p.tag.to_be_bytes());
@@ -763,7 +764,8 @@ impl Exec {
             let lh = self.model.socks[&l].host;
             while let Some((st, peer)) = self.try_accept(l) {
                 let st = Scoped::new(self.world.id(lh), st);
-                let Some(&i) = locals.get(&peer) else {
+                let ph = if peer.ip().is_loopback() { lh } else { self.model.owner(peer.ip()).unwrap_or(usize::MAX) };
+                let Some(&i) = locals.get(&(ph, peer)) else {
                     return Err(cp("accept-unknown-connection", format!("listener {} accepted a connection from {peer}; no probe has that address", self.model.socks[&l].sa())));
                 };
                 let p = &mut probes[i];
